@@ -187,3 +187,36 @@ package netsample
 //@ ensures [flushed-and-closed-on-every-exit] ev(flushed) >= old(ev(flushed)) + 1 && ev(closer_close) == old(ev(closer_close)) + 1
 //@ ensures [write-failure-is-reported] imp(calls(a.handle) > 0 && result_of(a.handle, 0) != nil, result == result_of(a.handle, 0))
 //@ at call a.handle assert [every-received-sample-is-handled] arg(s) == result_of(<-a.sink, 0)
+
+//@ func (s *Sample) SetUserProto
+//@ props C10
+//@ ensures s.fields[keyProtoCode] == code && forall(k, 0, 10, imp(k != keyProtoCode, s.fields[k] == old(s.fields)[k]))
+//@ modifies s.fields
+
+//@ func (s *Sample) SetUserDuration
+//@ props C10
+//@ ensures s.fields[keyRTTMicro] == d / 1000 && forall(k, 0, 10, imp(k != keyRTTMicro, s.fields[k] == old(s.fields)[k]))
+//@ modifies s.fields
+
+// ---------------------------------------------------------------- phout aggregator construction and intake
+
+//@ func (a *phoutAggregator) Report
+//@ props C06
+//@ requires a.sink != nil
+//@ at send a.sink assert [the-reported-sample] value == s
+//@ ensures [queued-never-dropped] sent(a.sink) == old(sent(a.sink)) + 1
+//@ modifies chanSent[a.sink]
+
+//@ func DefaultPhoutConfig
+//@ props C06 C17
+//@ ensures [defaults] result.FlushTime == 1000000000 && result.SampleQueueSize == 262144 && result.Buffer.BufferSize == 8388608 && result.Destination == "" && !result.ID
+
+//@ func NewPhout
+//@ props C06
+//@ requires conf.SampleQueueSize >= 0
+//@ at call fs.Create assert [the-configured-file] arg(name) == conf.Destination && conf.Destination != ""
+//@ ensures [stdout-without-a-destination] imp(conf.Destination == "", calls(fs.Create) == 0)
+//@ ensures [open-failure-is-reported] imp(conf.Destination != "", calls(fs.Create) == 1 && iff(err != nil, result_of(fs.Create, 1) != nil)) && imp(err != nil, a == nil)
+//@ ensures [writer-over-the-file] imp(err == nil, typeis(a, *phoutAggregator) && a.(*phoutAggregator).config == conf && cap(a.(*phoutAggregator).sink) == conf.SampleQueueSize && len(a.(*phoutAggregator).buf) == 0 && a.(*phoutAggregator).writer == result_of(bufio.NewWriterSize, 0))
+//@ ensures [file-is-closed-by-the-aggregator] imp(err == nil && conf.Destination != "", a.(*phoutAggregator).file == box(result_of(fs.Create, 0)))
+//@ at call bufio.NewWriterSize assert [buffer-in-front-of-the-file] imp(conf.Destination != "", arg(w) == box(result_of(fs.Create, 0)))
